@@ -578,6 +578,30 @@ fn replay_faultplan() {
     };
     let mut failures = check(&cas, "live store after the fault");
     drop(cas);
+    // the log itself, read with an independent reader of the documented format (44-byte header: version u64 LE, checksum,
+    // length u32 LE; version 0 = end marker): record versions strictly increase along the log - none is used twice
+    {
+        let mut segs: Vec<(u64, std::path::PathBuf)> = std::fs::read_dir(dir.path()).unwrap().flatten()
+            .filter_map(|e| { let n = e.file_name().to_string_lossy().to_string();
+                              n.strip_suffix("_index.wal").and_then(|x| x.parse::<u64>().ok()).map(|id| (id, e.path())) }).collect();
+        segs.sort();
+        let mut versions: Vec<u64> = Vec::new();
+        for (_, p) in segs {
+            let b = std::fs::read(&p).unwrap();
+            let mut off = 0usize;
+            while off + 44 <= b.len() {
+                let ver = u64::from_le_bytes(b[off..off + 8].try_into().unwrap());
+                if ver == 0 { break; }
+                let len = u32::from_le_bytes(b[off + 40..off + 44].try_into().unwrap()) as usize;
+                if off + 44 + len > b.len() { break; }
+                versions.push(ver);
+                off += 44 + len;
+            }
+        }
+        if versions.windows(2).any(|w| w[0] >= w[1]) {
+            failures.push(format!("record versions in the log are not strictly increasing (a version is used twice): {versions:?}"));
+        }
+    }
     match Cas::<String>::open(dir.path(), cfg()) {
         Ok(cas2) => failures.extend(check(&cas2, "after reopening")),
         Err(e) => failures.push(format!("the store does not reopen after the contained fault: {e}")),
